@@ -106,7 +106,7 @@ theorem step_refines (P : Params) (c : Coder) (op : Op) (hs : c.surv.seen = []) 
     (step P c op).2 = (stepC P c.core op).2 ∧
     (step P c op).1.core = (stepC P c.core op).1 ∧
     (step P c op).1.surv.seen = [] := by
-  obtain ⟨m, names, nss, off, fl, sv⟩ := c
+  obtain ⟨m, names, nss, off, fl, flo, sv⟩ := c
   simp only at hs
   cases op with
   | literal =>
@@ -120,15 +120,23 @@ theorem step_refines (P : Params) (c : Coder) (op : Op) (hs : c.surv.seen = []) 
     cases h : m.pushArray P.maxDepth <;> simp [done, doneC, growSurv, Coder.core, hs]
   | popArray =>
     simp only [step, stepC, Coder.core]
-    cases h : m.popArray <;> simp [done, doneC, growSurv, Coder.core, hs]
+    by_cases hfl : blockedArr m flo = true
+    · simp [hfl, Coder.core, hs]
+    · simp only [hfl, Bool.false_eq_true, ↓reduceIte]
+      cases h : m.popArray <;> simp [done, doneC, growSurv, Coder.core, hs]
+  | enterUser => simp [step, stepC, Coder.core, hs]
+  | leaveUser prev => simp [step, stepC, Coder.core, hs]
   | pushObject =>
     simp only [step, stepC, Coder.core]
     by_cases hf : fl.get allowDupBit = true <;>
       cases h : m.pushObject P.maxDepth <;> simp [done, doneC, growSurv, Coder.core, hs, Coder.allowDup, allowDupK, hf]
   | popObject =>
     simp only [step, stepC, Coder.core]
-    by_cases hf : fl.get allowDupBit = true <;>
-      cases h : m.popObject <;> simp [done, doneC, growSurv, Coder.core, hs, Coder.allowDup, allowDupK, hf]
+    by_cases hfl : blockedObj m flo = true
+    · simp [hfl, Coder.core, hs]
+    · simp only [hfl, Bool.false_eq_true, ↓reduceIte]
+      by_cases hf : fl.get allowDupBit = true <;>
+        cases h : m.popObject <;> simp [done, doneC, growSurv, Coder.core, hs, Coder.allowDup, allowDupK, hf]
   | string s =>
     simp only [step, stepC, Coder.core, Coder.allowDup, allowDupK, makeString_fst]
     by_cases hc : (m.last.needObjectName && !fl.get allowDupBit) = true
